@@ -333,6 +333,26 @@ def rearmed_running_stage_witness(run: Any) -> str | None:
     return None
 
 
+def stale_skip_witness(run: Any) -> str | None:
+    """Mechanism classifier: a SkipStage decided by an OR-split in loop iteration i is still queued when a jump
+    re-arms the split; delivered afterwards (messages carry no iteration) it skips the branch in iteration i+1,
+    whose own StartStage is then ignored."""
+    groups = Groups(run.commits)
+    jump_seqs = [a["seq"] for a in run.audit if a["kind"] == "mark" and a["op"] == "ins" and a["b"] == "JumpToStage"]
+    if not jump_seqs:
+        return None
+    pushed = {str(a["a"]): a["seq"] for a in run.audit if a["kind"] == "queue" and a["op"] == "ins" and a["c"] == "SkipStage"}
+    for a in run.audit:
+        if a["kind"] == "status" and a["op"] == "stage" and a["d"] == "SKIPPED":
+            tag = groups.tag(groups.of(a["seq"]))
+            if tag and tag[0] == "SkipStage" and str(tag[1]) in pushed:
+                p = pushed[str(tag[1])]
+                between = [j for j in jump_seqs if p < j < a["seq"]]
+                if between:
+                    return f"SkipStage row {tag[1]} was pushed at seq {p} (by the OR-split of the previous iteration), a jump was applied at seq {between[0]}, and the message skipped its stage at seq {a['seq']} in the next iteration"
+    return None
+
+
 def attribute(violations: list[dict], run: Any, prop: str) -> list[dict]:
     """Re-sign the violations of a run whose failure is explained by a classified mechanism."""
     if not violations:
@@ -343,6 +363,9 @@ def attribute(violations: list[dict], run: Any, prop: str) -> list[dict]:
     w = rearmed_running_stage_witness(run)
     if w:
         return [viol(f"{prop}/jump-rearmed-a-running-stage:stale-message-of-the-previous-iteration-handled", f"{w}; symptoms: {[v['sig'] for v in violations][:4]}")]
+    w = stale_skip_witness(run)
+    if w:
+        return [viol(f"{prop}/stale-skip-of-the-previous-iteration-applied-after-the-jump", f"{w}; symptoms: {[v['sig'] for v in violations][:4]}")]
     return violations
 
 
